@@ -78,6 +78,17 @@ func vid(v ssa.Value) string {
 		return "field(" + vid(x.X) + ")." + fieldName(x.X.Type(), x.Field)
 	case *ssa.Extract:
 		return vid(x.Tuple) + "#" + fmt.Sprint(x.Index)
+	case *ssa.UnOp:
+		// load of a field of a single-assignment local struct cell
+		if x.Op == token.MUL {
+			if fa, ok := x.X.(*ssa.FieldAddr); ok {
+				if al, ok := fa.X.(*ssa.Alloc); ok {
+					if val, ok := CellValue(al); ok {
+						return "field(" + vid(val) + ")." + fieldName(fa.X.Type(), fa.Field)
+					}
+				}
+			}
+		}
 	}
 	return fmt.Sprintf("%s@%p", v.Name(), v)
 }
@@ -185,6 +196,7 @@ type PSResult struct {
 	Path     []*ssa.BasicBlock
 	Overflow bool
 	States   int
+	Env      string
 }
 
 // PathSens runs the query.
@@ -299,10 +311,18 @@ func PathSens(q PSQuery) PSResult {
 			if q.Target(in, it.env) {
 				res.Found = in
 				res.Path = mkpath(it)
+				res.Env = it.env.key()
 				return res
 			}
 			if v, ok := in.(ssa.Value); ok {
-				it.env.dropFactsAbout(v)
+				switch in.(type) {
+				case *ssa.Field, *ssa.Extract:
+					// pure projections: re-evaluating them changes nothing
+				default:
+					if !strings.HasPrefix(vid(v), "field(") {
+						it.env.dropFactsAbout(v)
+					}
+				}
 			}
 		}
 		if dead {
@@ -352,3 +372,11 @@ func dupOrdinal(e Edge) int {
 	}
 	return n
 }
+
+// FactKeyEq is the key under which the explorer records the outcome of the
+// comparison `v == <constant c>` (c given in normalised form).
+func FactKeyEq(v ssa.Value, c string) string { return "eq:" + vid(v) + ":const:" + c }
+
+// FactKeyVal is the key under which the explorer records the truth of the
+// boolean value v.
+func FactKeyVal(v ssa.Value) string { return "v:" + vid(v) }
